@@ -261,13 +261,23 @@ type mblock struct {
 	invPhase int
 	trPhase  int
 	invQueued bool // marked invalid while still queued (the store dropped it)
-	prevRaw   []byte // the body handed in before the last "other body" re-add, and the phase of that re-add:
-	rawPhase  int    // a read racing with it may still return the old body
+	prevRaw   [][]byte // the bodies handed in before the "other body" re-adds of phase rawPhase:
+	rawPhase  int      // a read racing with them may still return an older body
 }
 
 // is d what a read may return for this block (concurrent = it raced with writer ops of phase ph)?
 func (b *mblock) bodyOK(d []byte, concurrent bool, ph int) bool {
-	return bytes.Equal(d, b.raw) || (concurrent && b.prevRaw != nil && b.rawPhase == ph && bytes.Equal(d, b.prevRaw))
+	if bytes.Equal(d, b.raw) {
+		return true
+	}
+	if concurrent && b.rawPhase == ph {
+		for _, p := range b.prevRaw {
+			if bytes.Equal(d, p) {
+				return true
+			}
+		}
+	}
+	return false
 }
 
 type readRec struct {
@@ -507,7 +517,10 @@ func (r *run) writerOp(o *Op) {
 					nb = append(nb, b.raw[i]^0x35)
 				}
 				nb = append(nb, 0x5a)
-				b.prevRaw, b.rawPhase = b.raw, r.phase
+				if b.rawPhase != r.phase {
+					b.prevRaw = nil
+				}
+				b.prevRaw, b.rawPhase = append(b.prevRaw, b.raw), r.phase
 				b.raw = nb
 				r.out.Probe("readd_after_invalid_while_queued_with_another_body", 1)
 			}
